@@ -155,7 +155,16 @@ pub fn run(sc: &Value) -> Value {
         out.insert("width_class".into(), json!(if wd.is_nan() { "nan" } else if wd > 0.0 { "pos" } else { "nonpos" }));
     }
     out.insert("outcome".into(), json!(if r.is_ok() { "ok" } else { "panic" }));
-    out.insert("pix".into(), pix(dt.get_data()));
+    if !sc["light"].as_bool().unwrap_or(false) {
+        out.insert("pix".into(), pix(dt.get_data()));
+    } else {
+        // only the outcome matters; float arguments would be truncated by TLC's JSON reader
+        out.insert("ops".into(), json!("f"));
+        out.insert("ctm".into(), json!("f"));
+        if out.contains_key("style") {
+            out.insert("style".into(), json!("f"));
+        }
+    }
     for (k, v) in extra {
         out.insert(k, v);
     }
